@@ -975,8 +975,55 @@ def _run_props(res, ctx):
             drv.close()
 
 
+def stdout_reports_many_files(res):
+    """A report written to STANDARD OUTPUT is the report and nothing else, also for a scan of more files than the progress display's threshold (found on the unchanged
+    tree: with more than 50 files and the default log level rich's progress line `Working... 100%` was printed to standard output in front of the JSON / YAML / XML /
+    CSV / SARIF report, which then no longer parsed; repaired by /repo a30efef)."""
+    import tempfile, shutil
+    d = tempfile.mkdtemp(prefix="bverif_c09many_")
+    try:
+        for i in range(57):
+            with open(os.path.join(d, "m%02d.py" % i), "w") as fh:
+                fh.write("import pickle\n" if i % 2 else "x = %d\nassert x\n" % i)
+        for fmt in ("json", "yaml", "xml", "csv", "sarif"):
+            for extra in ([], ["-v"]):
+                import subprocess, sys
+                pr = subprocess.run([sys.executable, "-c", "import sys; sys.path[:0]=%r; from bandit.cli.main import main; main()" % ([os.environ["PYTHONPATH"].split(os.pathsep)[0], C.REPO],),
+                                     "-r", d, "-f", fmt] + extra, capture_output=True, timeout=300)          # a real pipe on standard output
+                r = {"out": pr.stdout.decode("utf-8", "replace"), "exit": pr.returncode, "exc": None if pr.returncode in (0, 1) else "exit %d: %s" % (pr.returncode, pr.stderr.decode("utf-8", "replace")[-200:])}
+                res.case(("stdout-report-many-files", fmt, bool(extra)), True)
+                res.count("stdout-reports-many-files")
+                ok, why = True, None
+                try:
+                    if fmt == "json":
+                        n = len(json.loads(r["out"])["results"])
+                    elif fmt == "sarif":
+                        n = len(json.loads(r["out"])["runs"][0]["results"])
+                    elif fmt == "yaml":
+                        import yaml
+                        n = len(yaml.safe_load(r["out"])["results"])
+                    elif fmt == "xml":
+                        n = len(ET.fromstring(r["out"]).findall("testcase"))
+                    else:
+                        rows = list(csv.reader(io.StringIO(r["out"])))
+                        n = len(rows) - 1
+                        if rows and rows[0][:1] != ["filename"]:
+                            raise ValueError("first row is not the header: %r" % rows[0][:2])
+                    if n != 57:
+                        ok, why = False, "%d records for 57 findings" % n
+                except Exception as e:
+                    ok, why = False, "%s: %s" % (type(e).__name__, str(e)[:120])
+                if not ok or r["exc"] is not None:
+                    res.violation("%s report written to standard output is not well-formed for a scan of 57 files" % fmt,
+                                  {"argv": ["-r", "<dir with 57 files>", "-f", fmt] + extra, "problem": why, "stdout_head": r["out"][:200], "exit": r["exit"], "exc": r["exc"]})
+    finally:
+        shutil.rmtree(d, ignore_errors=True)
+
+
 def run(res, ctx):
     import clirel
     _run_props(res, ctx)
+    if not ctx.get("replay"):
+        stdout_reports_many_files(res)
     # relations between runs of the command-line tool that differ in one kind of option (harness/clirel.py): the relations this property owns
     clirel.family(res, ctx, C, "C09", 150, 900)
